@@ -9,6 +9,10 @@ import Poulpy.Lemmas.EpBridge
 import Poulpy.Lemmas.EpKs
 import Poulpy.Model.Core.Mul
 import Poulpy.Props.C03
+import Poulpy.Props.C02
+import Poulpy.Props.C08
+import Poulpy.Lemmas.MulTensor
+import Poulpy.Lemmas.EpNorm
 
 /-!
 # C04 — external products and CMux multiply by the EpGGSW plaintext within noise
@@ -472,5 +476,115 @@ example : cmux false 1 4 3 [[[1], [2], [3]], [[0], [1], [0]]] [[[0], [0], [1]], 
       (bigAddSmallAssign false ((epInternal (glweSubSameRank 1 3 [[[1], [2], [3]], [[0], [1], [0]]] [[[0], [0], [1]], [[0], [0], [0]]])
         staleG (zeroCols 1 2 4) (zeroCols 1 2 4)).getD j []) ([[[0], [0], [1]], [[0], [0], [0]]].getD j [])) 4)) :=
   cmux_accumulator false 1 4 3 _ _ staleG _ _ (by decide)
+
+/-! ## The final `vec_znx_big_normalize` (torus-wrap step) -/
+
+/-- **the torus-wrap step, equal radices, outright** (FFT64 accumulator; the NTT120 one is `C08.big_normalize128_inter_value` in the same
+way): every coefficient of every column of the result is `C08`'s same-radix normalisation of the accumulator's coefficient — balanced
+digits, equal on the torus up to one unit of the result's last limb, and exactly equal when the result has enough limbs. -/
+theorem ep_result_coeff_same_radix {b n rs : Nat} {H : Int} (hr : NormL.HeadRoom 64 b 0 H) (x C : Col)
+    (hx : ∀ l ∈ x, ∀ v ∈ l, |v| ≤ H) (h : epBigNormalize false n b rs x b = some C) (t : Nat) (ht : t < n) :
+    coefAt C t = normalizeInterCoef 64 b rs 0 (coefAt x t) ∧
+    (∀ d ∈ coefAt C t, NormL.Balanced b d) ∧
+    NormL.TorusNear (valI b (coefAt C t)) (b * rs) (valI b (coefAt x t)) (b * x.length) ∧
+    (b * x.length ≤ b * rs → NormL.TorusEq (valI b (coefAt C t)) (b * rs) (valI b (coefAt x t)) (b * x.length)) := by
+  have hm : (List.range n).mapM (fun i => normalizeCoef b rs 0 b (coefAt x i))
+      = some ((List.range n).map (fun i => normalizeInterCoef 64 b rs 0 (coefAt x i))) :=
+    mapM_some_of_forall _ _ _ (fun i _ => by unfold normalizeCoef; simp)
+  have hC : C = ofCoefs rs ((List.range n).map (fun i => normalizeInterCoef 64 b rs 0 (coefAt x i))) := by
+    unfold epBigNormalize bigNormalizeCol64? normalizeCol? mapCoefs? at h
+    simp only [Bool.false_eq_true, if_false, hm, Option.map_some, Option.some.injEq] at h
+    exact h.symm
+  have ha : ∀ v ∈ coefAt x t, |v| ≤ H := by
+    intro v hv
+    unfold coefAt at hv
+    simp only [List.mem_map] at hv
+    obtain ⟨l, hl, rfl⟩ := hv
+    by_cases hlt : t < l.length
+    · have : l.getD t 0 ∈ l := by rw [List.getD_eq_getElem?_getD, List.getElem?_eq_getElem hlt]; exact List.getElem_mem _
+      exact hx l hl _ this
+    · have : l.getD t 0 = 0 := by rw [List.getD_eq_getElem?_getD, List.getElem?_eq_none (by omega)]; rfl
+      rw [this]; simp
+      exact hr.hH0
+  have hv := C08.normalize_inter_value hr rs 0 (coefAt x t) ha
+  simp only [Int.toNat_zero, pow_zero, mul_one, neg_zero, Nat.add_zero] at hv
+  have hct : coefAt C t = normalizeInterCoef 64 b rs 0 (coefAt x t) := by
+    rw [hC, coefAt_ofCoefs rs _ t (by simpa using ht) (by simp [List.getD_eq_getElem?_getD, ht, hv.1])]
+    simp [List.getD_eq_getElem?_getD, ht]
+  have hlen : (coefAt x t).length = x.length := by simp [coefAt]
+  rw [hct]
+  refine ⟨rfl, hv.2.1, ?_, ?_⟩
+  · have := hv.2.2.1; rw [hlen] at this; exact this
+  · intro hle
+    have hcast : ((b * x.length : Nat) : Int) ≤ ((b * rs : Nat) : Int) := by exact_mod_cast hle
+    have := hv.2.2.2 (by rw [hlen]; linarith)
+    rw [hlen] at this; exact this
+
+example : (coefAt [[3], [0], [0], [0]] 0 = normalizeInterCoef 64 4 4 0 (coefAt [[3], [0], [0], [0]] 0)) ∧
+    NormL.TorusNear (valI 4 (coefAt [[3], [0], [0], [0]] 0)) (4 * 4) (valI 4 (coefAt [[3], [0], [0], [0]] 0)) (4 * 4) :=
+  let h := ep_result_coeff_same_radix (b := 4) (n := 1) (rs := 4) (H := 100)
+    ⟨by norm_num, by norm_num, by norm_num, by norm_num, by norm_num⟩ [[3], [0], [0], [0]] [[3], [0], [0], [0]]
+    (by intro l hl v hv; simp at hl; rcases hl with rfl | rfl <;> simp at hv <;> subst hv <;> norm_num) (by decide) 0 (by norm_num)
+  ⟨h.1, h.2.2.1⟩
+
+/-- **`ep_result_phase_modulo_norm`** — the torus-wrap step of `glwe_external_product` (hence of every cell of the GGLWE / GGSW forms),
+same or different radices, modulo the value specification of the normalisation kernel: if for every column the C08 kernel relation
+`A·val(normalised column) = B·val(accumulator column) + E_i` holds (`C08.normalize_inter_value` / `big_normalize128_inter_value` for equal
+radices, `C08.normalize_value_offset0` / `big_normalize128_value_offset0` across radices — `A`, `B` the two scales, `E_i` the rounding of the
+dropped limbs plus the multiple of the torus modulus), then the phase of the **result ciphertext** relates to the exact phase of the big
+accumulator (`ep_executed_identity`) in the same way, with the explicit error `E₀ + Σ s_i ⋆ E_{i+1}` (bounded by `(1 + Σ‖s_i‖₁)·max|E|`,
+`C02.phase_error_bound`). -/
+theorem ep_result_phase_modulo_norm {N : Nat} (big128 : Bool) (rb rs ab : Nat) (a aConv res : List Col) (g : EpGGSW)
+    (hg : (g.n == N && g.wf && shapeOk N (g.rank + 1) (a.getD 0 []).length a) = true)
+    (hc : epConvert N a ab g = some aConv)
+    (hok : glweExternalProduct big128 N rb rs a ab g = .ok res)
+    (A B : Int) (E : Nat → Poly) (hE : ∀ i, (E i).length = N)
+    (hbig : C02L.GWF N (Ks.mkCt g.base2k N (epInternal aConv g (zeroCols N (g.rank + 1) g.size) (zeroCols N (g.rank + 1) g.size))))
+    (hres : C02L.GWF N (Ks.mkCt rb N res))
+    (hK : ∀ i, i ≤ g.rank → ∀ C,
+      epBigNormalize big128 N rb rs ((epInternal aConv g (zeroCols N (g.rank + 1) g.size) (zeroCols N (g.rank + 1) g.size)).getD i []) g.base2k
+        = some C →
+      polyScale A (C02L.valP rb N C) = polyAdd (polyScale B (C02L.valP g.base2k N
+        ((epInternal aConv g (zeroCols N (g.rank + 1) g.size) (zeroCols N (g.rank + 1) g.size)).getD i []))) (E i))
+    (s : List Poly) :
+    polyScale A (C02L.valP rb N (Core.Ops.phase s (Ks.mkCt rb N res)))
+      = polyAdd (polyScale B (C02L.valP g.base2k N (Core.Ops.phase s (Ks.mkCt g.base2k N (epInternal aConv g (zeroCols N (g.rank + 1) g.size) (zeroCols N (g.rank + 1) g.size))))))
+        (C02L.errTo (min g.rank s.length) s E) := by
+  rw [glweExternalProduct_accumulator big128 N rb rs a ab g aConv hg hc] at hok
+  have hm := optOutcome_ok _ _ hok
+  have hlen : res.length = g.rank + 1 := by
+    rw [mapM_some_length _ _ _ hm, epInternal_length]
+  have hrank : (Ks.mkCt g.base2k N (epInternal aConv g (zeroCols N (g.rank + 1) g.size) (zeroCols N (g.rank + 1) g.size))).rank
+      = (Ks.mkCt rb N res).rank := by
+    simp [GLWE.rank, Ks.mkCt, hlen, epInternal_length]
+  have hr' : (Ks.mkCt rb N res).rank = g.rank := by simp [GLWE.rank, Ks.mkCt, hlen]
+  have h := C02.phase_value_modulo_norm (N := N) hres hbig hrank A B E hE (by
+    intro i hi
+    rw [hr'] at hi
+    have hi' : i < (epInternal aConv g (zeroCols N (g.rank + 1) g.size) (zeroCols N (g.rank + 1) g.size)).length := by
+      rw [epInternal_length]; omega
+    have hn := mapM_some_getD (fun c => epBigNormalize big128 N rb rs c g.base2k) [] [] _ _ hm i hi'
+    exact hK i hi _ hn) s
+  rw [hr'] at h
+  exact h
+
+example (s : List Poly) :
+    polyScale 1 (C02L.valP 4 1 (Core.Ops.phase s (Ks.mkCt 4 1 [[[3], [0], [0], [0]], [[0], [0], [0], [0]]])))
+      = polyAdd (polyScale 1 (C02L.valP 4 1 (Core.Ops.phase s (Ks.mkCt 4 1
+          (epInternal [[[1], [2], [3]], [[0], [1], [0]]] staleG (zeroCols 1 2 4) (zeroCols 1 2 4))))))
+        (C02L.errTo (min 1 s.length) s (fun _ => [0])) :=
+  ep_result_phase_modulo_norm (N := 1) false 4 4 4 [[[1], [2], [3]], [[0], [1], [0]]] [[[1], [2], [3]], [[0], [1], [0]]]
+    [[[3], [0], [0], [0]], [[0], [0], [0], [0]]] staleG (by decide) (by decide) (by decide) 1 1 (fun _ => [0]) (fun _ => rfl)
+    (by decide) (by decide)
+    (by
+      intro i hi C hC
+      have hi' : i = 0 ∨ i = 1 := by have : i ≤ 1 := hi; omega
+      rcases hi' with rfl | rfl
+      · have e : epBigNormalize false 1 4 4 ((epInternal [[[1], [2], [3]], [[0], [1], [0]]] staleG (zeroCols 1 2 4) (zeroCols 1 2 4)).getD 0 []) 4
+            = some [[3], [0], [0], [0]] := by decide
+        have hC' := e.symm.trans hC; injection hC' with hC'; subst hC'; decide
+      · have e : epBigNormalize false 1 4 4 ((epInternal [[[1], [2], [3]], [[0], [1], [0]]] staleG (zeroCols 1 2 4) (zeroCols 1 2 4)).getD 1 []) 4
+            = some [[0], [0], [0], [0]] := by decide
+        have hC' := e.symm.trans hC; injection hC' with hC'; subst hC'; decide) s
 
 end C04
